@@ -7,11 +7,17 @@
 use std::sync::Arc;
 
 use iroh_base::RelayUrl;
+use iroh_base::{EndpointId, SecretKey};
 use n0_error::AnyError;
+use tokio_util::sync::CancellationToken;
 
 use crate::{
     endpoint::RelayStatus,
     socket::transports::{HomeRelayWatch, RelayConnectionState},
+};
+use crate::{
+    net_report::Report,
+    socket::transports::{RelayActorConfig, VerifRelayActor},
 };
 
 fn state_of(code: u8) -> RelayConnectionState {
@@ -58,5 +64,65 @@ impl Watch {
             };
             (url, code)
         })
+    }
+}
+
+/// A real `RelayActor` (with the real `ActiveRelayActor`s it starts) publishing into a
+/// [`Watch`]. Its messages are handled by direct calls (`RelayActor::handle_msg`), not by
+/// the `run` loop, so the caller knows when `on_network_change` has returned. The
+/// connection actors stop at the pause points
+/// `relay_actor.active.report:<url>:{connecting,connected,disconnected}` (before each status
+/// report) and `relay_actor.active.set_home:<url>:{dialing,connected}:{true,false}` (before a
+/// `SetHomeRelay` inbox message is handled) when those are armed.
+pub struct Actors {
+    actor: VerifRelayActor,
+    cancel: CancellationToken,
+}
+
+impl Actors {
+    /// Must be called inside a tokio runtime. `tls_config` is used to dial the relays.
+    pub fn new(watch: &Watch, secret_key: SecretKey, tls_config: rustls::ClientConfig) -> Self {
+        let cancel = CancellationToken::new();
+        let config = RelayActorConfig {
+            my_relay: watch.0.clone(),
+            secret_key,
+            dns_resolver: crate::dns::DnsResolver::new(),
+            proxy_url: None,
+            ipv6_reported: Default::default(),
+            tls_config,
+            metrics: Default::default(),
+            relay_map: iroh_relay::RelayMap::empty(),
+        };
+        Self {
+            actor: VerifRelayActor::new(config, cancel.clone()),
+            cancel,
+        }
+    }
+    /// `RelayActorMessage::NetworkChange` with a report whose preferred relay is `preferred`
+    /// (everything else default); returns when `on_network_change` has returned.
+    pub async fn network_change(&mut self, preferred: Option<RelayUrl>) {
+        let mut report = Report::default();
+        report.preferred_relay = preferred;
+        self.actor.verif_network_change(report).await
+    }
+    /// `RelayActor::active_relay_handle(url)` (what sending a datagram via `url` does when no
+    /// connection actor for it exists yet).
+    pub fn ensure_active(&mut self, url: RelayUrl) {
+        self.actor.verif_active_relay_handle(url)
+    }
+    /// Asks `url`'s connection actor a priority question; answered when the actor is next at
+    /// the top of one of its loops.
+    pub fn probe(&self, url: &RelayUrl) -> Option<tokio::sync::oneshot::Receiver<bool>> {
+        let peer: EndpointId = SecretKey::from_bytes(&[0x26; 32]).public();
+        self.actor.verif_probe(url, peer)
+    }
+    /// `(url, messages waiting in the inbox)` of every connection actor.
+    pub fn active_relays(&self) -> Vec<(RelayUrl, usize)> {
+        self.actor.verif_active_relays()
+    }
+    /// Cancels and joins all connection actors.
+    pub async fn close(&mut self) {
+        self.cancel.cancel();
+        self.actor.verif_close().await
     }
 }
